@@ -1,9 +1,9 @@
 """C05 / C06 / C13 -- the per-cell export pipeline: spine gate, category gate, placeholder, tokenizer (DESIGN 4.5, 4.6, 4.13)."""
 from pyvc.contract import contract
-from pyvc.ghost import ite, conj, disj, implies, iff
+from pyvc.ghost import ite, conj, disj, implies, iff, uf_bool, uf_str, symbolic_run
 from contracts.spec_cat import closure, is_desc
 from contracts.spec_tokens import export_spec, plain, basic_spec, is_note_like, no_decorations
-from contracts.shapes import (mk_any_token, mk_simple_like, mk_header_token, mk_node, mk_options, TOKEN_KINDS, HEADER_UNIVERSE)
+from contracts.shapes import (mk_any_token, mk_simple_like, mk_header_token, mk_node, mk_options, mk_tree, TOKEN_KINDS, HEADER_UNIVERSE)
 from contracts.c04 import aekern_text, clef_class_name, PREFIX_OF, needs_conversion
 from contracts.spec_staff import agn_text
 from kernpy.core.tokens import TokenCategory
@@ -220,6 +220,83 @@ class export_token_history:
             return conj(agnostic, node.last_signature_nodes.nodes.get('ClefToken') is None,
                         needs_conversion(node.token, lambda c: c in set(options.token_categories)))
         return second == cell_text(node, options)
+
+
+# ------------------------------------------------------------------------------------------------ the row loop of export_string
+A_ROW = ('abstraction of append_row (verified by contract append_row): whether a cell is appended for a node, and its text, depend on '
+         'the node and the options only')
+
+
+def ROW_GATE(node, options):
+    if symbolic_run():
+        return uf_bool('row.gate', node.id)
+    r = []
+    return Exporter().append_row(document=None, node=node, options=options, row=r)
+
+
+def ROW_CELL(node, options):
+    if symbolic_run():
+        return uf_str('row.cell', node.id)
+    r = []
+    Exporter().append_row(document=None, node=node, options=options, row=r)
+    return r[0]
+
+
+@contract(EX + 'Exporter.append_row', props=PROPS, name='append_row_summary', local=True, assumed=A_ROW)
+class append_row_summary:
+    def model(node, options, row):
+        gate = ROW_GATE(node, options)
+        if gate:
+            row.append(ROW_CELL(node, options))
+        return gate
+
+
+def native_document(g):
+    """native runs: a really imported document of the generator"""
+    import kernpy as kp
+    from contracts.gen_doc import gen_score
+    doc, _ = kp.loads(gen_score(g.seeded_rng('doc.seed')).text())
+    return doc
+
+
+@contract(EX + 'Exporter.export_string', props=['C03', 'C05', 'C06'], name='export_string_stage_step')
+class export_string_stage_step:
+    """One iteration of the row loop of export_string, for an arbitrary stage of an arbitrary tree: the row of the stage is the list of
+    the cells of its selected nodes, in the order of the nodes (C06: a projection, nothing reordered, nothing invented); it is added
+    to the rows iff it has a cell and not all its cells are placeholders (C03 / C05: lines left with only placeholders are dropped);
+    the rows collected before are untouched.  What a cell is: contract append_row."""
+    step = 'for stage in range(from_stage, to_stage + 1)'
+    uses = ('append_row_summary',)
+    assumes = (A_ROW,)
+
+    def inputs(g):
+        if g.symbolic:
+            from kernpy.core.document import Document
+            tree = mk_tree(g)
+            document = g.new(Document, {'tree': tree, 'measure_start_tree_stages': [], 'page_bounding_boxes': {}, 'header_stage': None}, None)
+            options = None
+        else:
+            document = native_document(g)
+            tree = document.tree
+            options = mk_options(g, Encoding.eKern)      # (what a cell is, in every encoding: contract append_row)
+        stage = g.int('stage', 0)
+        g.assume(stage < len(tree.stages))
+        rows = [[g.str_sym('rows[0][0]', ['**kern', '4c'])]]
+        return {'self': g.new(Exporter, {}, ()), 'document': document, 'options': options, 'rows': rows, 'stage': stage, '_before': list(rows)}
+
+    modifies = ('rows', 'self.**')
+
+    def post_row_is_the_projection_of_the_stage(document, options, rows, stage, before):
+        want = [ROW_CELL(n, options) for n in document.tree.stages[stage] if ROW_GATE(n, options)]
+        kept = conj(len(want) > 0, not all(c in {'.', '*', ''} for c in want))
+        if kept:
+            if len(rows) != len(before) + 1:
+                return False
+            return conj(rows[-1] == want, rows[:-1] == before)
+        return rows == before
+
+    def post_loop_goes_on(flow):
+        return flow == 'next'
 
 
 def row_prefix(g):
